@@ -1,1 +1,811 @@
-(* placeholder: to be written *)
+(** Lemmas for C18 (governance-v2): status characterisation against the documented rational
+    thresholds, floor square root, vote effects and the one-vote-per-address history invariant
+    (tallies are sums over single ballots), fee escrow accounting. *)
+From MX Require Import Base.Prelude Gen.Params Model.Governance.
+
+(** Break a hypothesis [H : <monadic computation> = Ok _] into its successful steps. *)
+Ltac inv_ok H :=
+  repeat (first
+    [ match type of H with
+      | Ok _ = Ok _ => inversion H; subst; clear H
+      | Err _ = Ok _ => discriminate H
+      | bind ?r ?f = Ok _ =>
+          let a := fresh "a" in let Hb := fresh "Hb" in
+          apply bind_ok in H; destruct H as (a & Hb & H)
+      | (if ?b then _ else _) = Ok _ =>
+          let E := fresh "E" in destruct b eqn:E
+      | (let (_, _) := ?x in _) = Ok _ => destruct x
+      | (match ?x with Some _ => _ | None => _ end) = Ok _ =>
+          let E := fresh "E" in destruct x eqn:E
+      end
+    | progress cbv beta in H ]).
+
+(** ------------------------------------------------------------------ facts about the generated constants *)
+Lemma gov_status_order :
+  GOV_STATUS_None < GOV_STATUS_Pending /\ GOV_STATUS_Pending < GOV_STATUS_Active /\
+  GOV_STATUS_Active < GOV_STATUS_Defeated /\ GOV_STATUS_Defeated < GOV_STATUS_DefeatedWithVeto /\
+  GOV_STATUS_DefeatedWithVeto < GOV_STATUS_Succeeded.
+Proof. vm_compute. repeat split. Qed.
+
+Lemma gov_vote_codes :
+  GOV_VOTE_UpVote = 0 /\ GOV_VOTE_DownVote = 1 /\ GOV_VOTE_DownVetoVote = 2 /\ GOV_VOTE_AbstainVote = 3 /\
+  GOV_VOTE_COUNT = 4.
+Proof. vm_compute. repeat split. Qed.
+
+Lemma full_pos : 0 < FULL.
+Proof. vm_compute. reflexivity. Qed.
+
+Lemma gov_cfg_bounds :
+  0 < GOV_MIN_VOTING_DELAY /\ 0 < GOV_MIN_VOTING_PERIOD /\ 0 < GOV_MIN_QUORUM /\
+  0 < GOV_MIN_MIN_FEE_FOR_PROPOSE * GOV_DECIMALS_CONST.
+Proof. vm_compute. repeat split. Qed.
+
+(** ------------------------------------------------------------------ floor square root *)
+Lemma isqrt_spec x : 0 <= x ->
+  0 <= isqrt x /\ isqrt x * isqrt x <= x < (isqrt x + 1) * (isqrt x + 1).
+Proof.
+  intros Hx. unfold isqrt. pose proof (Z.sqrt_spec x Hx) as H. cbv zeta in H.
+  pose proof (Z.sqrt_nonneg x). lia.
+Qed.
+
+Lemma isqrt_unique x r : 0 <= r -> r * r <= x < (r + 1) * (r + 1) -> isqrt x = r.
+Proof.
+  intros Hr H. unfold isqrt. apply Z.sqrt_unique. lia.
+Qed.
+
+(** ------------------------------------------------------------------ integer thresholds = rational thresholds *)
+(** up > floor(tot/2)  <->  up > tot/2 as rationals *)
+Lemma half_equiv up tot : (tot / 2 <? up) = true <-> tot < 2 * up.
+Proof.
+  pose proof (div_lo tot 2 ltac:(lia)) as L. pose proof (div_hi tot 2 ltac:(lia)) as Hh.
+  set (h := tot / 2) in *. clearbody h. rewrite Z.ltb_lt. lia.
+Qed.
+
+(** veto > floor(tot/3)  <->  veto > tot/3 as rationals *)
+Lemma third_equiv veto tot : (tot / 3 <? veto) = true <-> tot < 3 * veto.
+Proof.
+  pose proof (div_lo tot 3 ltac:(lia)) as L. pose proof (div_hi tot 3 ltac:(lia)) as Hh.
+  set (h := tot / 3) in *. clearbody h. rewrite Z.ltb_lt. lia.
+Qed.
+
+(** the documented conditions, as propositions over the rationals (cross-multiplied) *)
+Definition quorum_ok (p : proposal) : Prop := pr_quorum p * FULL >= pr_minq p * pr_total p.
+Definition up_exceeds_half (p : proposal) : Prop := 2 * pr_up p > vote_total p.
+Definition veto_exceeds_third (p : proposal) : Prop := 3 * pr_veto p > vote_total p.
+
+Lemma quorum_reached_iff p : quorum_reached p = true <-> quorum_ok p.
+Proof. unfold quorum_reached, quorum_ok. rewrite Z.leb_le. lia. Qed.
+
+Lemma veto_iff p : vote_down_with_veto p = true <-> veto_exceeds_third p.
+Proof. unfold vote_down_with_veto, veto_exceeds_third. rewrite third_equiv. lia. Qed.
+
+Lemma vote_reached_iff p : vote_reached p = true <-> (up_exceeds_half p /\ ~ veto_exceeds_third p).
+Proof.
+  unfold vote_reached, up_exceeds_half, veto_exceeds_third. cbv zeta.
+  destruct (vote_total p / 3 <? pr_veto p) eqn:E.
+  - apply third_equiv in E. split; [discriminate | lia].
+  - assert (~ vote_total p < 3 * pr_veto p).
+    { intros C. apply third_equiv in C. congruence. }
+    rewrite half_equiv. lia.
+Qed.
+
+(** The status function decided by the code is the documented one. *)
+Lemma status_char blk p : 0 <= pr_period p ->
+  let vs := pr_start p + pr_delay p in
+  let ve := vs + pr_period p in
+  let s := status_of blk p in
+  (s = GOV_STATUS_Pending <-> blk < vs) /\
+  (s = GOV_STATUS_Active <-> vs <= blk < ve) /\
+  (s = GOV_STATUS_Succeeded <-> ve <= blk /\ quorum_ok p /\ up_exceeds_half p /\ ~ veto_exceeds_third p) /\
+  (s = GOV_STATUS_DefeatedWithVeto <-> ve <= blk /\ veto_exceeds_third p) /\
+  (s = GOV_STATUS_Defeated <-> ve <= blk /\ ~ veto_exceeds_third p /\ ~ (quorum_ok p /\ up_exceeds_half p)) /\
+  s <> GOV_STATUS_None.
+Proof.
+  intros Hper. cbv zeta. pose proof gov_status_order as O.
+  pose proof (quorum_reached_iff p) as Q. pose proof (vote_reached_iff p) as V. pose proof (veto_iff p) as W.
+  unfold status_of.
+  destruct (blk <? pr_start p + pr_delay p) eqn:E1.
+  { apply Z.ltb_lt in E1. repeat split; intros; try lia. }
+  apply Z.ltb_ge in E1.
+  destruct ((pr_start p + pr_delay p <=? blk) && (blk <? pr_start p + pr_delay p + pr_period p)) eqn:E2.
+  { apply andb_prop in E2. destruct E2 as [E2 E3]. apply Z.ltb_lt in E3. repeat split; intros; try lia. }
+  assert (E3 : pr_start p + pr_delay p + pr_period p <= blk).
+  { apply andb_false_iff in E2. destruct E2 as [E2|E2]; [apply Z.leb_gt in E2; lia | apply Z.ltb_ge in E2; lia]. }
+  destruct (quorum_reached p) eqn:EQ; destruct (vote_reached p) eqn:EV; destruct (vote_down_with_veto p) eqn:EW; simpl;
+    repeat split; intros; try lia; try tauto;
+    try (exfalso; intuition congruence).
+Qed.
+
+(** ------------------------------------------------------------------ lists of proposals *)
+Lemma upd_length {A} (l : list A) n x : length (upd l n x) = length l.
+Proof. revert n. induction l as [|h t IH]; intros [|n]; simpl; auto. Qed.
+
+Lemma nth_upd_same {A} (l : list A) n x : (n < length l)%nat -> nth_error (upd l n x) n = Some x.
+Proof.
+  revert n. induction l as [|h t IH]; intros [|n]; simpl; intros H; try lia; auto.
+  apply IH. lia.
+Qed.
+
+Lemma nth_upd_other {A} (l : list A) n m x : n <> m -> nth_error (upd l n x) m = nth_error l m.
+Proof.
+  revert n m. induction l as [|h t IH]; intros [|n] [|m]; simpl; intros H; auto; try congruence.
+Qed.
+
+Lemma valid_id_spec g id : valid_id g id = true <-> 1 <= id <= nprops g.
+Proof. unfold valid_id. rewrite andb_true_iff, !Z.leb_le. tauto. Qed.
+
+Lemma get_prop_some g id p : get_prop g id = Some p ->
+  1 <= id <= nprops g /\ nth_error (g_props g) (Z.to_nat (id - 1)) = Some p.
+Proof.
+  unfold get_prop. destruct (valid_id g id) eqn:E; [|discriminate].
+  apply valid_id_spec in E. auto.
+Qed.
+
+Lemma get_prop_valid g id : 1 <= id <= nprops g -> exists p, get_prop g id = Some p.
+Proof.
+  intros H. unfold get_prop. rewrite (proj2 (valid_id_spec g id) H).
+  destruct (nth_error (g_props g) (Z.to_nat (id - 1))) eqn:E; [eauto|].
+  apply nth_error_None in E. unfold nprops in H. lia.
+Qed.
+
+Lemma nprops_put g id p : nprops (put_prop g id p) = nprops g.
+Proof. unfold nprops, put_prop. simpl. rewrite upd_length. reflexivity. Qed.
+
+Lemma get_put_same g id p : 1 <= id <= nprops g -> get_prop (put_prop g id p) id = Some p.
+Proof.
+  intros H. unfold get_prop. rewrite (proj2 (valid_id_spec _ id)) by (rewrite nprops_put; exact H).
+  unfold put_prop. simpl. apply nth_upd_same. unfold nprops in H. lia.
+Qed.
+
+Lemma get_put_other g id id2 p : 1 <= id -> id2 <> id -> get_prop (put_prop g id p) id2 = get_prop g id2.
+Proof.
+  intros H1 Hne. unfold get_prop.
+  assert (Hv : valid_id (put_prop g id p) id2 = valid_id g id2).
+  { unfold valid_id. rewrite nprops_put. reflexivity. }
+  rewrite Hv. destruct (valid_id g id2) eqn:E; [|reflexivity].
+  apply valid_id_spec in E. unfold put_prop. simpl.
+  apply nth_upd_other. lia.
+Qed.
+
+(** proposals() access on the bare list, so that lemmas survive changes of the other state components *)
+Definition getp (l : list proposal) (id : Z) : option proposal :=
+  if (1 <=? id) && (id <=? Z.of_nat (length l)) then nth_error l (Z.to_nat (id - 1)) else None.
+
+Lemma get_prop_getp g id : get_prop g id = getp (g_props g) id.
+Proof. reflexivity. Qed.
+
+Lemma getp_some l id p : getp l id = Some p ->
+  1 <= id <= Z.of_nat (length l) /\ nth_error l (Z.to_nat (id - 1)) = Some p.
+Proof.
+  unfold getp. destruct ((1 <=? id) && (id <=? Z.of_nat (length l))) eqn:E; [|discriminate].
+  apply andb_prop in E. destruct E as [A B]. apply Z.leb_le in A, B. auto.
+Qed.
+
+Lemma getp_valid l id : 1 <= id <= Z.of_nat (length l) -> exists p, getp l id = Some p.
+Proof.
+  intros H. unfold getp.
+  replace ((1 <=? id) && (id <=? Z.of_nat (length l))) with true
+    by (symmetry; apply andb_true_iff; rewrite !Z.leb_le; lia).
+  destruct (nth_error l (Z.to_nat (id - 1))) eqn:E; [eauto|].
+  apply nth_error_None in E. lia.
+Qed.
+
+Lemma getp_upd_same l id p : 1 <= id <= Z.of_nat (length l) -> getp (upd l (Z.to_nat (id - 1)) p) id = Some p.
+Proof.
+  intros H. unfold getp. rewrite upd_length.
+  replace ((1 <=? id) && (id <=? Z.of_nat (length l))) with true
+    by (symmetry; apply andb_true_iff; rewrite !Z.leb_le; lia).
+  apply nth_upd_same. lia.
+Qed.
+
+Lemma getp_upd_other l id id2 p : 1 <= id -> id2 <> id -> getp (upd l (Z.to_nat (id - 1)) p) id2 = getp l id2.
+Proof.
+  intros H1 Hne. unfold getp. rewrite upd_length.
+  destruct ((1 <=? id2) && (id2 <=? Z.of_nat (length l))) eqn:E; [|reflexivity].
+  apply andb_prop in E. destruct E as [A B]. apply Z.leb_le in A, B.
+  apply nth_upd_other. lia.
+Qed.
+
+Lemma getp_app_old l p id q : getp l id = Some q -> getp (l ++ [p]) id = Some q.
+Proof.
+  intros H. apply getp_some in H. destruct H as [R N]. unfold getp. rewrite app_length. simpl.
+  replace ((1 <=? id) && (id <=? Z.of_nat (length l + 1))) with true
+    by (symmetry; apply andb_true_iff; rewrite !Z.leb_le; lia).
+  rewrite nth_error_app1 by lia. exact N.
+Qed.
+
+Lemma getp_app_inv l p id q : getp (l ++ [p]) id = Some q ->
+  (getp l id = Some q /\ id <= Z.of_nat (length l)) \/ (id = Z.of_nat (length l) + 1 /\ q = p).
+Proof.
+  intros H. apply getp_some in H. destruct H as [R N]. rewrite app_length in R. simpl in R.
+  destruct (Z_le_gt_dec id (Z.of_nat (length l))) as [L|G].
+  - left. split; [|exact L]. rewrite nth_error_app1 in N by lia. unfold getp.
+    replace ((1 <=? id) && (id <=? Z.of_nat (length l))) with true
+      by (symmetry; apply andb_true_iff; rewrite !Z.leb_le; lia).
+    exact N.
+  - right. assert (id = Z.of_nat (length l) + 1) by lia. split; [assumption|]. subst id.
+    rewrite nth_error_app2 in N by lia.
+    replace (Z.to_nat (Z.of_nat (length l) + 1 - 1) - length l)%nat with 0%nat in N by lia.
+    simpl in N. congruence.
+Qed.
+
+Lemma getp_app_new l p : getp (l ++ [p]) (Z.of_nat (length l) + 1) = Some p.
+Proof.
+  unfold getp. rewrite app_length. simpl.
+  replace ((1 <=? Z.of_nat (length l) + 1) && (Z.of_nat (length l) + 1 <=? Z.of_nat (length l + 1))) with true
+    by (symmetry; apply andb_true_iff; rewrite !Z.leb_le; lia).
+  rewrite nth_error_app2 by lia.
+  replace (Z.to_nat (Z.of_nat (length l) + 1 - 1) - length l)%nat with 0%nat by lia. reflexivity.
+Qed.
+
+(** ------------------------------------------------------------------ status: helper facts *)
+Lemma status_of_not_none blk p : status_of blk p <> GOV_STATUS_None.
+Proof.
+  pose proof gov_status_order. unfold status_of.
+  repeat match goal with |- context [if ?b then _ else _] => destruct b end; lia.
+Qed.
+
+Lemma status_active_started blk p : status_of blk p = GOV_STATUS_Active -> pr_start p + pr_delay p <= blk.
+Proof.
+  pose proof gov_status_order. unfold status_of.
+  destruct (blk <? pr_start p + pr_delay p) eqn:E; [lia|]. apply Z.ltb_ge in E. intros _. exact E.
+Qed.
+
+Lemma status_pending_early blk p : status_of blk p = GOV_STATUS_Pending -> blk < pr_start p + pr_delay p.
+Proof.
+  pose proof gov_status_order. unfold status_of.
+  destruct (blk <? pr_start p + pr_delay p) eqn:E; [apply Z.ltb_lt in E; auto|].
+  repeat match goal with |- context [if ?b then _ else _] => destruct b end; lia.
+Qed.
+
+Lemma view_status_live g id p : get_prop g id = Some p -> pr_live p = true ->
+  view_status g id = status_of (g_block g) p.
+Proof. intros H L. unfold view_status. rewrite H, L. reflexivity. Qed.
+
+Lemma view_status_not_none g id : view_status g id <> GOV_STATUS_None ->
+  exists p, get_prop g id = Some p /\ pr_live p = true /\ view_status g id = status_of (g_block g) p.
+Proof.
+  unfold view_status. destruct (get_prop g id) as [p|] eqn:E; [|congruence].
+  destruct (pr_live p) eqn:L; [|congruence]. intros _. eauto.
+Qed.
+
+Lemma view_status_none g id :
+  view_status g id = GOV_STATUS_None <-> (forall p, get_prop g id = Some p -> pr_live p = false).
+Proof.
+  unfold view_status. destruct (get_prop g id) as [p|] eqn:E.
+  - destruct (pr_live p) eqn:L.
+    + split; [intros H; exfalso; exact (status_of_not_none _ _ H) | intros H; specialize (H p eq_refl); congruence].
+    + split; [intros _ q Hq; congruence | reflexivity].
+  - split; [intros _ q Hq; discriminate | reflexivity].
+Qed.
+
+(** ------------------------------------------------------------------ what an operation leaves alone *)
+Definition core (g : gov) :=
+  (g_block g, g_props g, g_voted g,
+   (g_min_energy g, g_min_fee g, g_quorum g, g_delay g, g_period g, g_wpct g),
+   (g_energy g, g_synced g, g_total g)).
+
+Definition same_snapshot (p p' : proposal) : Prop :=
+  pr_live p' = pr_live p /\ pr_proposer p' = pr_proposer p /\ pr_fee p' = pr_fee p /\ pr_minq p' = pr_minq p /\
+  pr_delay p' = pr_delay p /\ pr_period p' = pr_period p /\ pr_wpct p' = pr_wpct p /\ pr_start p' = pr_start p.
+
+(** ------------------------------------------------------------------ ledger *)
+Lemma xfer_spec g s d amt g' : xfer g s d amt = Ok g' ->
+  amt <= bal g s /\
+  (forall a, bal g' a = bal g a - (if a =? s then amt else 0) + (if a =? d then amt else 0)) /\
+  g_burned g' = g_burned g /\ core g' = core g /\
+  (NoDup (akeys (g_bal g)) -> NoDup (akeys (g_bal g')) /\ asum (g_bal g') = asum (g_bal g)).
+Proof.
+  unfold xfer. intros H. inv_ok H. apply sub_chk_ok in Hb. destruct Hb as [Hle ->].
+  split; [exact Hle|]. split; [|split; [reflexivity|split; [reflexivity|]]].
+  - intros a. unfold bal. simpl.
+    destruct (Z.eq_dec a d) as [->|Hd].
+    + rewrite aget_aset_same. rewrite Z.eqb_refl.
+      destruct (Z.eq_dec d s) as [->|Hs].
+      * rewrite aget_aset_same, Z.eqb_refl. lia.
+      * rewrite aget_aset_other by congruence.
+        destruct (d =? s) eqn:E; [apply Z.eqb_eq in E; contradiction|]. lia.
+    + rewrite aget_aset_other by congruence.
+      destruct (a =? d) eqn:E; [apply Z.eqb_eq in E; contradiction|].
+      destruct (Z.eq_dec a s) as [->|Hs].
+      * rewrite aget_aset_same, Z.eqb_refl. lia.
+      * rewrite aget_aset_other by congruence.
+        destruct (a =? s) eqn:E2; [apply Z.eqb_eq in E2; contradiction|]. lia.
+  - intros ND. simpl.
+    pose proof (nodup_aset (g_bal g) s (aget (g_bal g) s - amt) ND) as ND1.
+    split; [apply nodup_aset; exact ND1|].
+    rewrite asum_aset by exact ND1. rewrite asum_aset by exact ND. unfold bal. lia.
+Qed.
+
+Lemma burn_spec g amt g' : burn g amt = Ok g' ->
+  amt <= bal g SELF /\
+  (forall a, bal g' a = bal g a - (if a =? SELF then amt else 0)) /\
+  g_burned g' = g_burned g + amt /\ core g' = core g /\
+  (NoDup (akeys (g_bal g)) -> NoDup (akeys (g_bal g')) /\ asum (g_bal g') = asum (g_bal g) - amt).
+Proof.
+  unfold burn. intros H. inv_ok H. apply sub_chk_ok in Hb. destruct Hb as [Hle ->].
+  split; [exact Hle|]. split; [|split; [reflexivity|split; [reflexivity|]]].
+  - intros a. unfold bal. simpl. destruct (Z.eq_dec a SELF) as [->|Hs].
+    + rewrite aget_aset_same, Z.eqb_refl. lia.
+    + rewrite aget_aset_other by congruence.
+      destruct (a =? SELF) eqn:E; [apply Z.eqb_eq in E; contradiction|]. lia.
+  - intros ND. simpl. split; [apply nodup_aset; exact ND|].
+    rewrite asum_aset by exact ND. unfold bal. lia.
+Qed.
+
+(** ------------------------------------------------------------------ votes *)
+Definition tally (p : proposal) (k : Z) : Z :=
+  if k =? GOV_VOTE_UpVote then pr_up p
+  else if k =? GOV_VOTE_DownVote then pr_down p
+  else if k =? GOV_VOTE_DownVetoVote then pr_veto p
+  else pr_abstain p.
+
+Lemma add_vote_spec p kind w e : 0 <= kind < GOV_VOTE_COUNT ->
+  let p' := add_vote p kind w e in
+  (forall k, 0 <= k < GOV_VOTE_COUNT -> tally p' k = tally p k + (if k =? kind then w else 0)) /\
+  pr_quorum p' = pr_quorum p + e /\ pr_total p' = pr_total p /\ pr_withdrawn p' = pr_withdrawn p /\
+  same_snapshot p p'.
+Proof.
+  intros Hk. pose proof gov_vote_codes as (C0 & C1 & C2 & C3 & C4). cbv zeta.
+  unfold add_vote, tally, same_snapshot. rewrite C0, C1, C2 in *. rewrite C4 in Hk.
+  assert (Hcases : kind = 0 \/ kind = 1 \/ kind = 2 \/ kind = 3) by lia.
+  destruct Hcases as [-> | [-> | [-> | ->]]]; simpl;
+    (split; [intros k Hk'; rewrite C4 in Hk';
+             assert (Hc : k = 0 \/ k = 1 \/ k = 2 \/ k = 3) by lia;
+             destruct Hc as [-> | [-> | [-> | ->]]]; simpl; lia
+            | repeat split; reflexivity]).
+Qed.
+
+Lemma has_voted_in g c id : has_voted g c id = true <-> In (c, id) (g_voted g).
+Proof.
+  unfold has_voted. rewrite existsb_exists. split.
+  - intros ([a b] & Hin & He). unfold pair_eqb in He. simpl in He.
+    apply andb_prop in He. destruct He as [A B]. apply Z.eqb_eq in A, B. subst. exact Hin.
+  - intros Hin. exists (c, id). split; [exact Hin|]. unfold pair_eqb. simpl. rewrite !Z.eqb_refl. reflexivity.
+Qed.
+
+Lemma vote_spec g c id kind g' o :
+  ep_vote g c id kind = Ok (g', o) ->
+  exists p p',
+    get_prop g id = Some p /\ pr_live p = true /\
+    view_status g id = GOV_STATUS_Active /\ status_of (g_block g) p = GOV_STATUS_Active /\
+    has_voted g c id = false /\ has_voted g' c id = true /\
+    0 <= kind < GOV_VOTE_COUNT /\ 0 < energy_of g c /\
+    get_prop g' id = Some p' /\
+    (forall k, 0 <= k < GOV_VOTE_COUNT ->
+       tally p' k = tally p k + (if k =? kind then isqrt (energy_of g c) else 0)) /\
+    pr_quorum p' = pr_quorum p + energy_of g c /\
+    pr_total p' = (if pr_quorum p =? 0 then g_total g else pr_total p) /\
+    pr_withdrawn p' = pr_withdrawn p /\ same_snapshot p p' /\
+    g_voted g' = g_voted g ++ [(c, id)] /\
+    g_props g' = upd (g_props g) (Z.to_nat (id - 1)) p' /\
+    (forall id2, id2 <> id -> get_prop g' id2 = get_prop g id2) /\
+    g' = put_prop (set_voted g (g_voted g ++ [(c, id)])) id p' /\ o = [].
+Proof.
+  unfold ep_vote. intros H.
+  destruct ((0 <=? kind) && (kind <? GOV_VOTE_COUNT)) eqn:Ek; [|discriminate].
+  destruct (valid_id g id) eqn:Ev; [|discriminate].
+  destruct (view_status g id =? GOV_STATUS_Active) eqn:Es; [|discriminate].
+  destruct (negb (has_voted g c id)) eqn:Eh; [|discriminate].
+  destruct (get_prop g id) as [p|] eqn:Ep; [|discriminate].
+  destruct (0 <? energy_of g c) eqn:Ee; [|discriminate].
+  inversion H; subst; clear H.
+  apply andb_prop in Ek. destruct Ek as [K0 K1]. apply Z.leb_le in K0. apply Z.ltb_lt in K1.
+  apply valid_id_spec in Ev. apply Z.eqb_eq in Es. apply negb_true_iff in Eh. apply Z.ltb_lt in Ee.
+  assert (Hlive : pr_live p = true).
+  { unfold view_status in Es. rewrite Ep in Es. destruct (pr_live p); [reflexivity|].
+    pose proof gov_status_order. lia. }
+  assert (Hst : status_of (g_block g) p = GOV_STATUS_Active).
+  { rewrite <- (view_status_live g id p Ep Hlive). exact Es. }
+  set (p1 := if pr_quorum p =? 0 then pr_set_total p (g_total g) else p) in *.
+  assert (P1 : pr_up p1 = pr_up p /\ pr_down p1 = pr_down p /\ pr_veto p1 = pr_veto p /\ pr_abstain p1 = pr_abstain p /\
+               pr_quorum p1 = pr_quorum p /\ pr_withdrawn p1 = pr_withdrawn p /\ same_snapshot p p1 /\
+               pr_total p1 = (if pr_quorum p =? 0 then g_total g else pr_total p)).
+  { unfold p1, same_snapshot. destruct (pr_quorum p =? 0); simpl; repeat split; reflexivity. }
+  destruct P1 as (U1 & D1 & V1 & A1 & Q1 & W1 & S1 & T1).
+  pose proof (add_vote_spec p1 kind (isqrt (energy_of g c)) (energy_of g c) (conj K0 K1)) as AV.
+  cbv zeta in AV. destruct AV as (AT & AQ & ATot & AW & AS).
+  set (p2 := add_vote p1 kind (isqrt (energy_of g c)) (energy_of g c)) in *.
+  exists p, p2.
+  split; [reflexivity|]. split; [exact Hlive|]. split; [exact Es|]. split; [exact Hst|].
+  split; [exact Eh|].
+  split. { apply has_voted_in. unfold put_prop. simpl. apply in_or_app. right. left. reflexivity. }
+  split; [lia|]. split; [exact Ee|].
+  split. { rewrite get_prop_getp. unfold put_prop. simpl. apply getp_upd_same. unfold nprops in Ev. exact Ev. }
+  split. { intros k Hk. rewrite (AT k Hk). unfold tally. rewrite U1, D1, V1, A1. reflexivity. }
+  split; [lia|]. split; [congruence|]. split; [congruence|].
+  split. { unfold same_snapshot in *. intuition congruence. }
+  split; [reflexivity|]. split; [reflexivity|].
+  split. { intros id2 Hne. rewrite !get_prop_getp. unfold put_prop. simpl. apply getp_upd_other; lia. }
+  repeat split; reflexivity.
+Qed.
+
+(** the second vote of an address on a proposal is rejected *)
+Lemma vote_twice_fails g c id kind : has_voted g c id = true -> is_ok (ep_vote g c id kind) = false.
+Proof.
+  intros H. unfold ep_vote. rewrite H. simpl.
+  destruct ((0 <=? kind) && (kind <? GOV_VOTE_COUNT)); [|reflexivity].
+  destruct (valid_id g id); [|reflexivity].
+  destruct (view_status g id =? GOV_STATUS_Active); reflexivity.
+Qed.
+
+(** votes outside the Active window are rejected *)
+Lemma vote_needs_active g c id kind : view_status g id <> GOV_STATUS_Active -> is_ok (ep_vote g c id kind) = false.
+Proof.
+  intros H. unfold ep_vote.
+  destruct ((0 <=? kind) && (kind <? GOV_VOTE_COUNT)); [|reflexivity].
+  destruct (valid_id g id); [|reflexivity].
+  destruct (view_status g id =? GOV_STATUS_Active) eqn:E; [apply Z.eqb_eq in E; contradiction | reflexivity].
+Qed.
+
+(** ------------------------------------------------------------------ propose / cancel / withdraw: decomposition *)
+Definition new_proposal (g : gov) (c amt : Z) : proposal :=
+  mkProp true c amt (g_quorum g) (g_delay g) (g_period g) (g_wpct g) 0 (g_block g) false 0 0 0 0 0.
+
+Lemma is_sc_false c : is_sc c = false -> c <> SELF /\ c <> SC_CALLER.
+Proof.
+  unfold is_sc. intros H. apply orb_false_iff in H. destruct H as [A B].
+  apply Z.eqb_neq in A, B. auto.
+Qed.
+
+Lemma propose_spec g c tok amt nact gas g' o :
+  ep_propose g c tok amt nact gas = Ok (g', o) ->
+  is_sc c = false /\ tok = FEE_TOK /\ amt = g_min_fee g /\ 0 <= amt /\ g_min_energy g <= energy_of g c /\
+  nact <= GOV_MAX_PROPOSAL_ACTIONS /\
+  exists g1, xfer g c SELF amt = Ok g1 /\
+             g' = set_props g1 (g_props g1 ++ [new_proposal g c amt]) /\ o = [nprops g + 1].
+Proof.
+  unfold ep_propose. intros H.
+  destruct ((0 <=? amt) && (0 <=? nact) && (0 <=? gas)) eqn:E0; [|discriminate].
+  destruct (negb (is_sc c)) eqn:E1; [|discriminate].
+  destruct (nact <=? GOV_MAX_PROPOSAL_ACTIONS) eqn:E2; [|discriminate].
+  destruct (g_min_energy g <=? energy_of g c) eqn:E3; [|discriminate].
+  destruct (negb (tok =? NO_PAY)) eqn:E4; [|discriminate].
+  destruct (tok =? FEE_TOK) eqn:E5; [|discriminate].
+  destruct (g_min_fee g =? amt) eqn:E6; [|discriminate].
+  destruct ((nact =? 0) || (gas <? GOV_MAX_GAS_LIMIT_PER_BLOCK)) eqn:E7; [|discriminate].
+  destruct (nact * gas <? GOV_MAX_GAS_LIMIT_PER_BLOCK) eqn:E8; [|discriminate].
+  apply bind_ok in H. destruct H as (g1 & Hx & H). cbv zeta in H. inversion H; subst; clear H.
+  apply andb_prop in E0. destruct E0 as [E0 _]. apply andb_prop in E0. destruct E0 as [E0 _].
+  apply Z.leb_le in E0, E2, E3. apply negb_true_iff in E1. apply Z.eqb_eq in E5, E6.
+  split; [exact E1|]. split; [exact E5|]. split; [lia|]. split; [exact E0|]. split; [exact E3|]. split; [exact E2|].
+  exists g1. split; [exact Hx|].
+  pose proof (xfer_spec _ _ _ _ _ Hx) as (_ & _ & _ & Hc & _).
+  unfold core in Hc. inversion Hc as [[Hblk Hpr Hvo Hme Hmf Hq Hd Hp Hw He Hs Ht]].
+  unfold new_proposal. rewrite Hq, Hd, Hp, Hw, Hblk.
+  split; [reflexivity|]. unfold nprops. simpl. rewrite app_length. simpl. rewrite Hpr.
+  f_equal. lia.
+Qed.
+
+Lemma cancel_spec g c id g' o :
+  ep_cancel g c id = Ok (g', o) ->
+  exists p g1,
+    get_prop g id = Some p /\ pr_live p = true /\
+    view_status g id = GOV_STATUS_Pending /\ status_of (g_block g) p = GOV_STATUS_Pending /\
+    c = pr_proposer p /\
+    xfer g SELF (pr_proposer p) (pr_fee p) = Ok g1 /\ g' = put_prop g1 id pr_cleared /\ o = [].
+Proof.
+  unfold ep_cancel. intros H. cbv zeta in H.
+  destruct (view_status g id =? GOV_STATUS_None) eqn:E0; [discriminate|].
+  destruct (view_status g id =? GOV_STATUS_Pending) eqn:E1; [|discriminate].
+  apply Z.eqb_neq in E0. apply Z.eqb_eq in E1.
+  destruct (view_status_not_none g id E0) as (p & Hp & Hl & Hs).
+  rewrite Hp in H.
+  destruct (c =? pr_proposer p) eqn:E2; [|discriminate]. apply Z.eqb_eq in E2.
+  apply bind_ok in H. destruct H as (g1 & Hx & H). inversion H; subst; clear H.
+  exists p, g1. repeat split; auto. congruence.
+Qed.
+
+Lemma withdraw_spec g c id g' o :
+  ep_withdraw g c id = Ok (g', o) ->
+  exists p,
+    get_prop g id = Some p /\ pr_live p = true /\ pr_withdrawn p = false /\ o = [] /\
+    view_status g id = status_of (g_block g) p /\
+    (((status_of (g_block g) p = GOV_STATUS_Succeeded \/ status_of (g_block g) p = GOV_STATUS_Defeated) /\
+      c = pr_proposer p /\
+      exists g1, xfer g SELF (pr_proposer p) (pr_fee p) = Ok g1 /\ g' = put_prop g1 id (pr_set_withdrawn p))
+     \/
+     (status_of (g_block g) p = GOV_STATUS_DefeatedWithVeto /\
+      let refund := pr_wpct p * pr_fee p / FULL in
+      refund <= pr_fee p /\
+      exists g1 g2, burn g (pr_fee p - refund) = Ok g1 /\ xfer g1 SELF (pr_proposer p) refund = Ok g2 /\
+                    g' = put_prop g2 id (pr_set_withdrawn p))).
+Proof.
+  unfold ep_withdraw. intros H. cbv zeta in H.
+  destruct (view_status g id =? GOV_STATUS_None) eqn:E0; [discriminate|].
+  apply Z.eqb_neq in E0.
+  destruct (view_status_not_none g id E0) as (p & Hp & Hl & Hs).
+  rewrite Hp in H.
+  destruct ((view_status g id =? GOV_STATUS_Succeeded) || (view_status g id =? GOV_STATUS_Defeated)) eqn:E1.
+  - destruct (c =? pr_proposer p) eqn:E2; [|discriminate]. apply Z.eqb_eq in E2.
+    destruct (negb (pr_withdrawn p)) eqn:E3; [|discriminate]. apply negb_true_iff in E3.
+    apply bind_ok in H. destruct H as (g1 & Hx & H). inversion H; subst; clear H.
+    exists p. split; [exact Hp|]. split; [exact Hl|]. split; [exact E3|]. split; [reflexivity|]. split; [exact Hs|].
+    left. split.
+    { apply orb_prop in E1. destruct E1 as [E1|E1]; apply Z.eqb_eq in E1; [left|right]; congruence. }
+    split; [reflexivity|]. exists g1. auto.
+  - destruct (view_status g id =? GOV_STATUS_DefeatedWithVeto) eqn:E4; [|discriminate].
+    apply Z.eqb_eq in E4.
+    destruct (negb (pr_withdrawn p)) eqn:E3; [|discriminate]. apply negb_true_iff in E3.
+    apply bind_ok in H. destruct H as (rem & Hr & H).
+    apply bind_ok in H. destruct H as (g1 & Hb & H).
+    apply bind_ok in H. destruct H as (g2 & Hx & H). inversion H; subst; clear H.
+    apply sub_chk_ok in Hr. destruct Hr as [Hle ->].
+    exists p. split; [exact Hp|]. split; [exact Hl|]. split; [exact E3|]. split; [reflexivity|]. split; [exact Hs|].
+    right. split; [congruence|]. cbv zeta. split; [exact Hle|]. exists g1, g2. auto.
+Qed.
+
+(** ------------------------------------------------------------------ escrow accounting *)
+Definition escrowed (p : proposal) : bool := pr_live p && negb (pr_withdrawn p).
+Definition esc (p : proposal) : Z := if escrowed p then pr_fee p else 0.
+Fixpoint escrow_sum (l : list proposal) : Z :=
+  match l with [] => 0 | p :: t => esc p + escrow_sum t end.
+
+(** what the contract holds beyond the fees it owes back *)
+Definition excess (g : gov) : Z := bal g SELF - escrow_sum (g_props g).
+
+Lemma escrow_sum_app l p : escrow_sum (l ++ [p]) = escrow_sum l + esc p.
+Proof. induction l as [|h t IH]; simpl; lia. Qed.
+
+Lemma escrow_sum_upd l n p p' : nth_error l n = Some p ->
+  escrow_sum (upd l n p') = escrow_sum l - esc p + esc p'.
+Proof.
+  revert n. induction l as [|h t IH]; intros [|n] H; simpl in *; try discriminate.
+  - inversion H; subst. lia.
+  - rewrite (IH n H). lia.
+Qed.
+
+Record PropOk (p : proposal) : Prop := {
+  po_wpct : 0 <= pr_wpct p <= FULL;
+  po_fee : 0 <= pr_fee p;
+  po_period : 0 <= pr_period p;
+  po_proposer : pr_live p = true -> is_sc (pr_proposer p) = false
+}.
+
+Record GovInv (g : gov) : Prop := {
+  gi_props : forall id p, get_prop g id = Some p -> PropOk p;
+  gi_wd : forall id p, get_prop g id = Some p -> pr_withdrawn p = true -> pr_start p + pr_delay p <= g_block g;
+  gi_nodup : NoDup (akeys (g_bal g));
+  gi_wpct : 0 <= g_wpct g <= FULL;
+  gi_period : 0 <= g_period g;
+  gi_excess : 0 <= excess g
+}.
+
+Lemma cleared_ok : PropOk pr_cleared.
+Proof. pose proof full_pos. constructor; simpl; try lia; try discriminate. Qed.
+
+(** an operation that leaves the proposals alone *)
+Lemma inv_core g g' :
+  GovInv g -> g_props g' = g_props g -> g_block g <= g_block g' ->
+  0 <= g_wpct g' <= FULL -> 0 <= g_period g' ->
+  NoDup (akeys (g_bal g')) -> bal g SELF <= bal g' SELF -> GovInv g'.
+Proof.
+  intros [] Hp Hb Hw Hpe Hnd Hbal. constructor.
+  - intros id p H. rewrite get_prop_getp, Hp in H. eapply gi_props0. rewrite get_prop_getp. exact H.
+  - intros id p H W. rewrite get_prop_getp, Hp in H. specialize (gi_wd0 id p H W). lia.
+  - exact Hnd.
+  - exact Hw.
+  - exact Hpe.
+  - unfold excess in *. rewrite Hp. lia.
+Qed.
+
+(** replacing one proposal *)
+Lemma inv_put g g1 id p p' :
+  GovInv g -> g_block g1 = g_block g -> g_props g1 = g_props g ->
+  g_wpct g1 = g_wpct g -> g_period g1 = g_period g -> NoDup (akeys (g_bal g1)) ->
+  get_prop g id = Some p -> PropOk p' ->
+  (pr_withdrawn p' = true -> pr_start p' + pr_delay p' <= g_block g) ->
+  0 <= bal g1 SELF - (escrow_sum (g_props g) - esc p + esc p') ->
+  GovInv (put_prop g1 id p').
+Proof.
+  intros [] Hblk Hpr Hw Hpe Hnd Hp Hok Hwd Hex.
+  rewrite get_prop_getp in Hp. pose proof (getp_some _ _ _ Hp) as [Hr Hn].
+  constructor.
+  - intros id2 q H. rewrite get_prop_getp in H. unfold put_prop in H. simpl in H. rewrite Hpr in H.
+    destruct (Z.eq_dec id2 id) as [->|Hne].
+    + rewrite getp_upd_same in H by exact Hr. inversion H; subst. exact Hok.
+    + rewrite getp_upd_other in H by lia. eapply gi_props0. rewrite get_prop_getp. exact H.
+  - intros id2 q H W. rewrite get_prop_getp in H. unfold put_prop in H. simpl in H. rewrite Hpr in H.
+    simpl. rewrite Hblk.
+    destruct (Z.eq_dec id2 id) as [->|Hne].
+    + rewrite getp_upd_same in H by exact Hr. inversion H; subst. auto.
+    + rewrite getp_upd_other in H by lia. eapply gi_wd0; [rewrite get_prop_getp; exact H | exact W].
+  - exact Hnd.
+  - simpl. lia.
+  - simpl. lia.
+  - unfold excess. unfold put_prop. simpl. rewrite Hpr.
+    rewrite (escrow_sum_upd _ _ p p' Hn). unfold bal in *. simpl. lia.
+Qed.
+
+Lemma excess_put g g1 id p p' :
+  g_props g1 = g_props g -> get_prop g id = Some p ->
+  excess (put_prop g1 id p') = bal g1 SELF - (escrow_sum (g_props g) - esc p + esc p').
+Proof.
+  intros Hpr Hp. rewrite get_prop_getp in Hp. pose proof (getp_some _ _ _ Hp) as [Hr Hn].
+  unfold excess, put_prop. simpl. rewrite Hpr. rewrite (escrow_sum_upd _ _ p p' Hn). reflexivity.
+Qed.
+
+Lemma status_final_started blk p : status_of blk p <> GOV_STATUS_Pending -> pr_start p + pr_delay p <= blk.
+Proof.
+  unfold status_of. destruct (blk <? pr_start p + pr_delay p) eqn:E; [congruence|].
+  apply Z.ltb_ge in E. intros _. exact E.
+Qed.
+
+Lemma propok_snapshot p p' : PropOk p -> same_snapshot p p' -> PropOk p'.
+Proof.
+  intros [] (L & P & F & _ & _ & Pe & W & _). constructor; try (rewrite ?W, ?F, ?Pe; assumption).
+  rewrite L, P. assumption.
+Qed.
+
+Definition donation (op : gop) : Z := match op with Donate _ amt => amt | _ => 0 end.
+
+Ltac core_eqs Hc :=
+  unfold core in Hc;
+  let Hblk := fresh "Hblk" in let Hpr := fresh "Hpr" in let Hvo := fresh "Hvo" in
+  let Hme := fresh "Hme" in let Hmf := fresh "Hmf" in let Hq := fresh "Hq" in let Hd := fresh "Hd" in
+  let Hpe := fresh "Hpe" in let Hw := fresh "Hw" in let He := fresh "He" in let Hs := fresh "Hs" in
+  let Ht := fresh "Ht" in
+  inversion Hc as [[Hblk Hpr Hvo Hme Hmf Hq Hd Hpe Hw He Hs Ht]].
+
+(** Every successful operation preserves the invariant, changes the excess only by a donation, and
+    conserves the fee token (balances + burned). *)
+Lemma step_inv g op g' o :
+  step g op = Ok (g', o) -> GovInv g ->
+  GovInv g' /\ excess g' = excess g + donation op /\
+  asum (g_bal g') + g_burned g' = asum (g_bal g) + g_burned g.
+Proof.
+  intros H Hinv. pose proof Hinv as [IP IW IN IWp IPe IE]. pose proof full_pos as HF.
+  destruct op; simpl in H.
+  - (* Propose *)
+    apply propose_spec in H. destruct H as (Hsc & -> & Hamt & Ham0 & _ & _ & g1 & Hx & -> & _).
+    pose proof (is_sc_false _ Hsc) as [HcS _].
+    pose proof (xfer_spec _ _ _ _ _ Hx) as (Hle & Hb & Hbu & Hc & Hnd). specialize (Hnd IN). destruct Hnd as [ND1 AS1].
+    core_eqs Hc.
+    assert (HbS : bal g1 SELF = bal g SELF + amt).
+    { rewrite (Hb SELF). destruct (SELF =? c) eqn:E; [apply Z.eqb_eq in E; congruence|]. rewrite Z.eqb_refl. lia. }
+    assert (Hesc : esc (new_proposal g c amt) = amt) by reflexivity.
+    split; [|split].
+    + constructor.
+      * intros id p H. rewrite get_prop_getp in H. simpl in H. rewrite Hpr in H.
+        apply getp_app_inv in H. destruct H as [[H _]|[_ ->]].
+        -- eapply IP. rewrite get_prop_getp. exact H.
+        -- constructor; simpl; try lia. intros _. exact Hsc.
+      * intros id p H W. rewrite get_prop_getp in H. simpl in H. rewrite Hpr in H. simpl. rewrite Hblk.
+        apply getp_app_inv in H. destruct H as [[H _]|[_ ->]].
+        -- eapply IW; [rewrite get_prop_getp; exact H | exact W].
+        -- simpl in W. discriminate.
+      * exact ND1.
+      * simpl. lia.
+      * simpl. lia.
+      * unfold excess in *. simpl. rewrite Hpr, escrow_sum_app, Hesc. unfold bal in *. simpl. lia.
+    + unfold excess in *. simpl. rewrite Hpr, escrow_sum_app, Hesc. unfold bal in *. simpl. lia.
+    + simpl. lia.
+  - (* Vote *)
+    apply vote_spec in H.
+    destruct H as (p & p' & Hp & Hl & _ & Hst & _ & _ & _ & _ & _ & _ & _ & _ & HW & HS & _ & _ & _ & -> & _).
+    assert (Hesc : esc p' = esc p).
+    { unfold esc, escrowed. destruct HS as (L & _ & F & _). rewrite L, HW, F. reflexivity. }
+    set (g1 := set_voted g (g_voted g ++ [(c, id)])) in *.
+    split; [|split].
+    + apply inv_put with (g := g) (p := p); auto.
+      * eapply propok_snapshot; [eapply IP; exact Hp | exact HS].
+      * intros W. destruct HS as (_ & _ & _ & _ & D & _ & _ & S). rewrite D, S.
+        eapply IW; [exact Hp | congruence].
+      * rewrite Hesc. unfold excess in IE. unfold g1, bal in *. simpl. lia.
+    + rewrite (excess_put g g1 id p p') by auto. rewrite Hesc. unfold excess, g1, bal. simpl. lia.
+    + reflexivity.
+  - (* Cancel *)
+    apply cancel_spec in H. destruct H as (p & g1 & Hp & Hl & _ & Hst & _ & Hx & -> & _).
+    pose proof (IP _ _ Hp) as [_ _ _ Hprop]. specialize (Hprop Hl). apply is_sc_false in Hprop. destruct Hprop as [HpS _].
+    pose proof (xfer_spec _ _ _ _ _ Hx) as (Hle & Hb & Hbu & Hc & Hnd). specialize (Hnd IN). destruct Hnd as [ND1 AS1].
+    core_eqs Hc.
+    assert (HbS : bal g1 SELF = bal g SELF - pr_fee p).
+    { rewrite (Hb SELF). rewrite Z.eqb_refl.
+      destruct (SELF =? pr_proposer p) eqn:E; [apply Z.eqb_eq in E; congruence|]. lia. }
+    assert (Hwd : pr_withdrawn p = false).
+    { destruct (pr_withdrawn p) eqn:W; [|reflexivity].
+      apply status_pending_early in Hst. pose proof (IW _ _ Hp W). lia. }
+    assert (Hesc : esc p = pr_fee p) by (unfold esc, escrowed; rewrite Hl, Hwd; reflexivity).
+    assert (Hesc' : esc pr_cleared = 0) by reflexivity.
+    split; [|split].
+    + apply inv_put with (g := g) (p := p); auto.
+      * apply cleared_ok.
+      * simpl. discriminate.
+      * rewrite Hesc, Hesc'. unfold excess in IE. lia.
+    + rewrite (excess_put g g1 id p pr_cleared) by auto. rewrite Hesc, Hesc'. unfold excess. cbn [donation]. lia.
+    + simpl. rewrite Hpr || idtac. unfold put_prop. simpl. lia.
+  - (* Withdraw *)
+    apply withdraw_spec in H. destruct H as (p & Hp & Hl & Hwd & _ & _ & Hcase).
+    pose proof (IP _ _ Hp) as Hok. pose proof Hok as [_ _ _ Hprop].
+    specialize (Hprop Hl). apply is_sc_false in Hprop. destruct Hprop as [HpS _].
+    assert (Hesc : esc p = pr_fee p) by (unfold esc, escrowed; rewrite Hl, Hwd; reflexivity).
+    assert (Hesc' : esc (pr_set_withdrawn p) = 0).
+    { unfold esc, escrowed. simpl. rewrite andb_false_r. reflexivity. }
+    assert (Hok' : PropOk (pr_set_withdrawn p)).
+    { destruct Hok. constructor; simpl; assumption. }
+    pose proof gov_status_order as O.
+    destruct Hcase as [(Hst & _ & g1 & Hx & ->) | (Hst & Hcase)].
+    + pose proof (xfer_spec _ _ _ _ _ Hx) as (Hle & Hb & Hbu & Hc & Hnd). specialize (Hnd IN). destruct Hnd as [ND1 AS1].
+      core_eqs Hc.
+      assert (HbS : bal g1 SELF = bal g SELF - pr_fee p).
+      { rewrite (Hb SELF). rewrite Z.eqb_refl.
+        destruct (SELF =? pr_proposer p) eqn:E; [apply Z.eqb_eq in E; congruence|]. lia. }
+      split; [|split].
+      * apply inv_put with (g := g) (p := p); auto.
+        -- intros _. simpl. apply status_final_started. lia.
+        -- rewrite Hesc, Hesc'. unfold excess in IE. lia.
+      * rewrite (excess_put g g1 id p _) by auto. rewrite Hesc, Hesc'. unfold excess. cbn [donation]. lia.
+      * unfold put_prop. simpl. lia.
+    + cbv zeta in Hcase. destruct Hcase as (Hle & g1 & g2 & Hbn & Hx & ->).
+      set (refund := pr_wpct p * pr_fee p / FULL) in *. clearbody refund.
+      pose proof (burn_spec _ _ _ Hbn) as (Hle1 & Hb1 & Hbu1 & Hc1 & Hnd1). specialize (Hnd1 IN). destruct Hnd1 as [ND1 AS1].
+      pose proof (xfer_spec _ _ _ _ _ Hx) as (Hle2 & Hb2 & Hbu2 & Hc2 & Hnd2). specialize (Hnd2 ND1). destruct Hnd2 as [ND2 AS2].
+      rewrite Hc1 in Hc2. core_eqs Hc2.
+      assert (HbS : bal g2 SELF = bal g SELF - pr_fee p).
+      { rewrite (Hb2 SELF), (Hb1 SELF). rewrite Z.eqb_refl.
+        destruct (SELF =? pr_proposer p) eqn:E; [apply Z.eqb_eq in E; congruence|]. lia. }
+      split; [|split].
+      * apply inv_put with (g := g) (p := p); auto.
+        -- intros _. simpl. apply status_final_started. lia.
+        -- rewrite Hesc, Hesc'. unfold excess in IE. lia.
+      * rewrite (excess_put g g2 id p _) by auto. rewrite Hesc, Hesc'. unfold excess. cbn [donation]. lia.
+      * unfold put_prop. simpl. lia.
+  - (* Block *)
+    unfold ep_block in H. destruct (0 <=? d) eqn:E; [|discriminate]. apply Z.leb_le in E.
+    inversion H; subst; clear H.
+    split; [|split]; [| unfold excess, bal; simpl; lia | simpl; lia].
+    apply inv_core with (g := g); simpl; auto; try lia.
+  - (* SetEnergy *)
+    unfold ep_set_energy in H. destruct (0 <=? e); [|discriminate]. inversion H; subst; clear H.
+    split; [|split]; [| unfold excess, bal; simpl; lia | simpl; lia].
+    apply inv_core with (g := g); simpl; auto; try lia.
+  - (* Sync *)
+    unfold ep_sync in H. apply bind_ok in H. destruct H as (t & _ & H). inversion H; subst; clear H.
+    split; [|split]; [| unfold excess, bal; simpl; lia | simpl; lia].
+    apply inv_core with (g := g); simpl; auto; try lia.
+  - (* Donate *)
+    unfold ep_donate in H. destruct ((0 <? amt) && negb (c =? SELF)) eqn:E; [|discriminate].
+    apply bind_ok in H. destruct H as (g1 & Hx & H). inversion H; subst; clear H.
+    apply andb_prop in E. destruct E as [E1 E2]. apply Z.ltb_lt in E1. apply negb_true_iff in E2. apply Z.eqb_neq in E2.
+    pose proof (xfer_spec _ _ _ _ _ Hx) as (Hle & Hb & Hbu & Hc & Hnd). specialize (Hnd IN). destruct Hnd as [ND1 AS1].
+    core_eqs Hc.
+    assert (HbS : bal g' SELF = bal g SELF + amt).
+    { rewrite (Hb SELF). rewrite Z.eqb_refl. destruct (SELF =? c) eqn:E; [apply Z.eqb_eq in E; congruence|]. lia. }
+    split; [|split].
+    + apply inv_core with (g := g); auto; try lia.
+    + unfold excess. rewrite Hpr. simpl. lia.
+    + lia.
+  - (* ChangeMinEnergy *)
+    unfold ep_change_min_energy in H. destruct (only_owner c); [|discriminate]. destruct (0 <=? v); [|discriminate].
+    inversion H; subst; clear H.
+    split; [|split]; [| unfold excess, bal; simpl; lia | simpl; lia].
+    apply inv_core with (g := g); simpl; auto; try lia.
+  - (* ChangeMinFee *)
+    unfold ep_change_min_fee in H. destruct (only_owner c); [|discriminate]. destruct (ok_min_fee v); [|discriminate].
+    inversion H; subst; clear H.
+    split; [|split]; [| unfold excess, bal; simpl; lia | simpl; lia].
+    apply inv_core with (g := g); simpl; auto; try lia.
+  - (* ChangeQuorum *)
+    unfold ep_change_quorum in H. destruct (only_owner c); [|discriminate]. destruct (ok_quorum v); [|discriminate].
+    inversion H; subst; clear H.
+    split; [|split]; [| unfold excess, bal; simpl; lia | simpl; lia].
+    apply inv_core with (g := g); simpl; auto; try lia.
+  - (* ChangeWithdrawPct *)
+    unfold ep_change_wpct in H. destruct (only_owner c); [|discriminate]. destruct (ok_wpct v) eqn:E; [|discriminate].
+    inversion H; subst; clear H.
+    unfold ok_wpct in E. apply andb_prop in E. destruct E as [E1 E2]. apply Z.leb_le in E1, E2.
+    split; [|split]; [| unfold excess, bal; simpl; lia | simpl; lia].
+    apply inv_core with (g := g); simpl; auto; try lia.
+  - (* ChangeDelay *)
+    unfold ep_change_delay in H. destruct (only_owner c); [|discriminate]. destruct (ok_delay v); [|discriminate].
+    inversion H; subst; clear H.
+    split; [|split]; [| unfold excess, bal; simpl; lia | simpl; lia].
+    apply inv_core with (g := g); simpl; auto; try lia.
+  - (* ChangePeriod *)
+    unfold ep_change_period in H. destruct (only_owner c); [|discriminate]. destruct (ok_period v) eqn:E; [|discriminate].
+    inversion H; subst; clear H.
+    unfold ok_period in E. apply andb_prop in E. destruct E as [E1 E2]. apply Z.leb_le in E1.
+    pose proof gov_cfg_bounds as (_ & B & _).
+    split; [|split]; [| unfold excess, bal; simpl; lia | simpl; lia].
+    apply inv_core with (g := g); simpl; auto; try lia.
+Qed.
